@@ -51,6 +51,9 @@ def run(plan):
         ac = s.make_clients()[0]
         lanmod = w.ns.lan
         PE = lanmod.ProtocolError
+        if plan["config"].get("backpressure"):
+            w.net.backpressure = 1 / 4096
+            w.fire("backpressure")
         stored = [None]
         any_cancel = [False]
         frame = w.ns.command.GetStateCommand().tobytes().hex()
@@ -343,7 +346,8 @@ def gen_plan(j, rng):
     ops.append({"op": "refresh"})
     ops.append({"op": "send", "retries": 1})
     return {"config": {"version": 3, "token": rand_bytes(rng, 64).hex(), "key": rand_bytes(rng, 32).hex(),
-                       "device_id": rng.getrandbits(48), "cred_form": rng.choice(["hex", "bytes"])}, "ops": ops}
+                       "device_id": rng.getrandbits(48), "cred_form": rng.choice(["hex", "bytes"]),
+                       "backpressure": rng.random() < 0.2}, "ops": ops}
 
 
 def space(tier):
